@@ -60,6 +60,12 @@ def grid(tier):
                         continue
                 out.append({"family": fam, "profile": profile, "shape": shape, "regime": regime, "noise": noise, "spikes": spikes,
                             "days": days, "climate": climate})
+    # corner cases of the one-slope final fit: a regime that is active on every day but one
+    for fam in ("daily", "billing"):
+        for profile in (["current", "legacy"] if fam == "daily" else ["billing"]):
+            for edge in ("always_heating_one_warm_day", "always_cooling_one_cold_day"):
+                out.append({"family": fam, "profile": profile, "shape": "heating", "regime": "none", "noise": 0.005, "spikes": 0, "days": 365,
+                            "climate": "mild", "edge": edge})
     # histories: the model OBJECT has been fitted before, on a baseline that leads to another split structure; the second
     # fit is held to the same clauses (every stored sub-model must belong to the second baseline)
     base = {"noise": 0.005, "spikes": 0, "days": 365, "climate": "continental"}
@@ -78,14 +84,36 @@ def grid(tier):
     return out
 
 
+def edge_frame(case):
+    """hand-built baselines for corner cases of the final fit"""
+    idx = ds.local_days("2021-01-01", 365, ZONE)
+    t = ds.daily_temperature(idx, "mild", 11).to_numpy()
+    rng = np.random.default_rng(21)
+    if case["edge"] == "always_heating_one_warm_day":
+        # a site that heats on every day of the year (nothing above ~52 F) except for ONE isolated warm day (75 F)
+        t = np.minimum(30.0 + (t - t.min()) * (22.0 / (t.max() - t.min())), 52.0)
+        t[200] = 75.0
+        y = (5.0 + 1.2 * np.clip(60.0 - t, 0, None)) * (1 + 0.01 * rng.uniform(-1, 1, len(t)))
+    elif case["edge"] == "always_cooling_one_cold_day":
+        t = np.maximum(70.0 + (t - t.min()) * (22.0 / (t.max() - t.min())), 70.0)
+        t[20] = 45.0
+        y = (5.0 + 1.5 * np.clip(t - 62.0, 0, None)) * (1 + 0.01 * rng.uniform(-1, 1, len(t)))
+    else:
+        raise ValueError(case["edge"])
+    return pd.DataFrame({"observed": y, "temperature": t}, index=idx)
+
+
 def build(case):
     import opendsm.eemeter as em
 
     kw = dict(SHAPES[case["shape"]])
     kw.update(REGIMES[case["regime"]])
     seed = 1 + list(SHAPES).index(case["shape"]) * 7 + NOISES.index(case["noise"])
-    fr = ds.daily_frame(start="2021-01-01", days=case["days"], tz=ZONE, climate=case["climate"], wseed=seed, seed=seed,
-                        noise=case["noise"], spikes=case["spikes"], **kw)
+    if case.get("edge"):
+        fr = edge_frame(case)
+    else:
+        fr = ds.daily_frame(start="2021-01-01", days=case["days"], tz=ZONE, climate=case["climate"], wseed=seed, seed=seed,
+                            noise=case["noise"], spikes=case["spikes"], **kw)
     if case["family"] == "daily":
         data = em.DailyBaselineData(fr, is_electricity_data=True)
         model = em.DailyModel(model="legacy") if case["profile"] == "legacy" else em.DailyModel()
@@ -185,6 +213,12 @@ def check_component(where, name, comp, key):
             elif "hdd_bp" in g and "hdd_k" not in g and comp.model_key == "c_hdd_tidd" and (
                     (g.get("hdd_beta") == 0 and g["cdd_bp"] < comp.T_min_seg) or (g.get("cdd_beta") == 0 and g["hdd_bp"] > comp.T_max_seg)):
                 # same clamp, reached from an unsmoothed two-slope vector whose one slope is zero
+                cause = "balance_point_clamped_to_segment_limit"
+            elif "hdd_k" in g and comp.model_key == "c_hdd_tidd" and (
+                    (g.get("hdd_beta") == 0 and g.get("cdd_beta") != 0 and not (comp.T_min_seg <= g["cdd_bp"] <= comp.T_max_seg))
+                    or (g.get("cdd_beta") == 0 and g.get("hdd_beta") != 0 and not (comp.T_min_seg <= g["hdd_bp"] <= comp.T_max_seg))):
+                # the same clamp, reached from a (smoothed) two-slope vector that reduces to one slope: the live branch's balance point
+                # lies outside the segment limits where the optimiser scored it and is stored on the limit
                 cause = "balance_point_clamped_to_segment_limit"
             elif "c_hdd_bp" in g and not (comp.T_min_seg <= g["c_hdd_bp"] <= comp.T_max_seg):
                 # one-sided model whose balance point lies outside the segment limits: scored where the optimiser put it,
